@@ -195,10 +195,7 @@ func init() {
 			ws = []wspec{mk(10000, 30000, 12), mk(0, 45000, 21), mk(1300000, 30000, 11)}
 		}
 		c.Rep.Bounds["windows"] = len(ws)
-		dss := []string{"D1", "D2"}
-		if c.Thorough() {
-			dss = []string{"D1", "D2", "D3"}
-		}
+		dss := []string{"D1", "D2", "D3"}
 		for _, q := range qs {
 			if usesStartEnd(q) {
 				continue
